@@ -12,7 +12,7 @@ var reservedish = []string{"con", "CON", "Con", "prn", "aux", "AUX", "nul", "NUL
 var tildeForms = []string{"a~1", "a~12", "a~1.b", "a~b", "~1", "a~", "a~1b", "a.b~1", "a~1~2", "a~1~b", "~", "~~1", "a~0", "abcdef~1.txt", "a.~1", "a~1.", "x~y~1.z~2", "rev~3", "snapshot~20240101", "v1~0.2.3", "RC~1", "v1.0.0~1", "2.0~rc1",
 	"pkg~99999999999999999999", "a~18446744073709551616", "a~18446744073709551615", "a~b~77777777777777777777", "x~000000000000000000000000000001"}
 var dotForms = []string{".", "..", "...", ".a", "a.", ".a.", "a..b", ".git", ".gitignore", "a.b.", "..a", "a...b"}
-var unicodeForms = []string{"é", "日本語", "K", "ſ", "σς", "ǅ", "naïve", "x́", "a b", "İ", "ß", "π.go", "٣", "a​b",
+var unicodeForms = []string{"x\u0663", "\uff12", "v\u096b.go", "a\U0001d7d9b", "x\u00b2", "é", "日本語", "K", "ſ", "σς", "ǅ", "naïve", "x́", "a b", "İ", "ß", "π.go", "٣", "a​b",
 	// Latin-1 and table boundaries: letters (U+00AA, U+00B5, U+00BA, U+00C0, U+00D6, U+00D8, U+00F6, U+00F8, U+00FE, U+00FF, U+0100, U+017F), non-letters (U+00D7, U+00F7, U+00A0, U+00AD, U+00B2)
 	"\u00aa", "\u00b5x", "\u00ba", "\u00c0", "\u00d6", "\u00d8", "\u00f6", "\u00f8", "\u00fe", "a\u00ffb", "\u00ff", "\u0100", "\u00d7", "a\u00f7b", "a\u00a0b", "a\u00adb", "x\u00b2",
 	// last code points of planes and blocks
